@@ -156,15 +156,10 @@ impl Desc {
         if self.addr_size != default_bytes {
             s += &format!("+a{}", self.addr_size as u32 * 8);
         }
-        for op in &self.ops {
-            if let Opnd::Mem { seg: Some(sg), .. } = op {
-                if sg == "fs" || sg == "gs" {
-                    s += "+fsgs";
-                } else {
-                    s += "+seg";
-                }
-                break;
-            }
+        // flat model: cs/ds/es/ss overrides change nothing; fs/gs do
+        let fsgs = self.ops.iter().any(|op| matches!(op, Opnd::Mem { seg: Some(sg), .. } if sg == "fs" || sg == "gs"));
+        if fsgs {
+            s += "+fsgs";
         }
         s
     }
